@@ -736,6 +736,60 @@ def r04e(run, rule="R04e"):
     return cnt
 
 
+# error classes whose `value` is not input data of a conversion: reason
+VALUE_FORMAT_EXEMPT = {
+    "InvalidInstance": "value is the receiver of a bound method whose class is checked (from_class), not a parsed input",
+    "InvalidSubclass": "value is a class object (type argument / receiver of a class method)",
+}
+
+
+def r04g(run):
+    """error objects are built outside any try (parse_addition, the lookup strategies, ...): their constructors and
+    message properties must not call back into the input value (repr / str / format)"""
+    fam = exception_family(run.repo)
+    m = run.repo.module("utype.utils.exceptions")
+    total = 0
+    for c in m.classes.values():
+        if c.name not in fam:
+            continue
+        for meth in c.methods.values():
+            if meth.name not in ("__init__", "formatted_message", "__str__", "__repr__"):
+                continue
+            total += 1
+            bad = []
+            for sub in walk_shallow(meth.node):
+                arg = None
+                if isinstance(sub, ast.FormattedValue):
+                    arg = sub.value
+                elif isinstance(sub, ast.Call) and isinstance(sub.func, ast.Name) and sub.func.id in ("repr", "str", "format", "ascii") and sub.args:
+                    arg = sub.args[0]
+                elif isinstance(sub, ast.BinOp) and isinstance(sub.op, ast.Mod) and isinstance(sub.left, ast.Constant) \
+                        and isinstance(sub.left.value, str):
+                    arg = sub.right
+                elif isinstance(sub, ast.Call) and isinstance(sub.func, ast.Attribute) and sub.func.attr == "format":
+                    arg = ast.Tuple(elts=list(sub.args) + [k.value for k in sub.keywords], ctx=ast.Load())
+                if arg is None:
+                    continue
+                for x in ast.walk(arg):
+                    if isinstance(x, ast.Attribute) and x.attr == "value" and unparse(x.value) == "self":
+                        bad.append(unparse(sub)[:50])
+                    if isinstance(x, ast.Name) and x.id == "value" and "value" in meth.params:
+                        bad.append(unparse(sub)[:50])
+            exempt = VALUE_FORMAT_EXEMPT.get(c.name)
+            if bad and exempt:
+                run.ob("R04g", meth, f"{c.name}.{meth.name} formats its value (exempt)", True, detail=exempt, nontrivial=False)
+                continue
+            run.check("R04g", meth, f"{c.name}.{meth.name} does not call back into the offending value", not bad,
+                      construct=f"{c.name}.{meth.name} formats self.value",
+                      message=f"{c.name}.{meth.name} formats the input value ({', '.join(sorted(set(bad)))}); "
+                              f"ParseError.__init__ evaluates the message while the error is being constructed, and "
+                              f"several construction sites (parse_addition, the lookup strategies) are not inside a try",
+                      necessity="repr()/str() of the input runs caller code or hits interpreter limits: an int of 5000 "
+                                "digits, a 1000-deep list or an object with a raising __repr__ makes a bare ValueError / "
+                                "RecursionError escape instead of the ParseError", node=meth.node)
+    run.floor("R04g", "error constructors / message properties", total, 10)
+
+
 def check(run):
     run.rules_run += ["R04a", "R04b", "R04c", "R04d", "R04e"]
     run.explain("C04: (R04a) every converter / validator / class-held constructor call in the parse core is inside a "
@@ -759,3 +813,5 @@ def check(run):
     from . import c10
     run.rules_run.append("R04f")
     c10.r10e(run, in_scope_functions(run), rule="R04f")
+    run.rules_run.append("R04g")
+    r04g(run)
